@@ -43,8 +43,12 @@ class World:
         self.log.add(self.loop.time(), "VIOLATION", prop, clause)
         self.violations.append((prop, clause, data))
 
-    def count_fault(self, kind, effect_until=None):
+    def count_fault(self, kind, effect_until=None, extend=True):
         self.fault_counts[kind] += 1
+        if not extend:
+            # a consequence of a fault whose window is registered already (a connection
+            # refused by a broker that is down): counted, but not a new fault
+            return
         t = self.loop.time() if effect_until is None else effect_until
         self.fault_windows.append((kind, self.loop.time(), t))
         if t > self.last_fault_effect:
